@@ -17,7 +17,7 @@ for sid in ids:
             t0 = time.time()
             r = subprocess.run([os.path.join(ROOT, "check"), p, "quick"], cwd=ROOT, stdout=subprocess.PIPE, stderr=subprocess.STDOUT)
             out = r.stdout.decode("utf-8", "replace")
-            keys = re.findall(r"^  key=(\S+) count=(\d+)", out, re.M)
+            keys = re.findall(r"^  key=(.+?) count=(\d+) leg=", out, re.M)
             meta["detection"][p] = {"cmd": "./check %s quick" % p, "exit": r.returncode, "violation_keys": [k for k, _ in keys][:12],
                                     "first_detail": (re.findall(r"^  (\[.*)$", out, re.M) or [""])[0][:300],
                                     "native_only": os.environ.get("VERIF_DEV_NATIVE_ONLY") == "1", "wall_s": round(time.time() - t0, 1), "repo_head": subprocess.run(["git", "-C", "/repo", "rev-parse", "--short", "HEAD"], stdout=subprocess.PIPE).stdout.decode().strip()}
